@@ -95,6 +95,14 @@ partial def loop (h : IO.FS.Stream) (c : Case) : IO Unit := do
       loop h { c with emitted := true }
     else loop h c
   | ["end"] => loop h {}
+  | ["sets"] =>
+    let pr (tag : String) (p : Field → Bool) : IO Unit :=
+      IO.println s!"{tag} {" ".intercalate ((Field.all.filter p).map Field.name)}"
+    pr "setB" B
+    pr "setDead" Dead
+    pr "setPartial" PartialField
+    pr "setPersistent" Persistent
+    loop h c
   | _ => loop h c
 
 def main : IO Unit := do loop (← IO.getStdin) {}
